@@ -160,10 +160,18 @@ def relation_dev(got, base, mats, axes, floor=1e-3, nat=None):
 class Scales:
     """Per-case cache of the natural magnitudes (indexed and density-type)."""
 
-    def __init__(self, basis, env):
+    def __init__(self, basis, env, shells=None):
         self.basis, self.env = basis, env
+        self.shells = shells  # plain-data shells (default conventions): enables the R5 neighbourhood magnitude
         self._pf = None
         self._phi = {}
+
+    def neighbourhood(self, order):
+        """Magnitude of each function (or derivative) in the neighbourhood of each point: the R5 sum of |terms| with
+        |x - X| replaced by |x - X| + 1/sqrt(alpha); never vanishes by symmetry."""
+        from vf.ref import r3, r5
+
+        return r5.eval_basis(r3.refs(self.shells), _a(self.env, "points"), order)[2]
 
     def nat(self, q, base):
         if self._pf is None:
@@ -174,6 +182,11 @@ class Scales:
             # function values / derivatives: summed magnitude of all derivatives up to one order higher (a value that
             # vanishes by symmetry at a sampled point is then still compared at the rounding level of its terms)
             n = 0 if q.name == "evaluate_basis" else int(sum(self.env["deriv_order"]))
+            if self.shells is not None:
+                o = (0, 0, 0) if q.name == "evaluate_basis" else [int(x) for x in self.env["deriv_order"]]
+                if "direct" in q.name:
+                    o = [min(x, 2) for x in o]
+                return self.neighbourhood(o)
             return self._cum_phi(n + 1, None)
         return natural_scale(q, base, self._pf)
 
@@ -187,7 +200,13 @@ class Scales:
                 acc = cache[tot - 1].copy() if tot > 0 else 0.0
                 for a in range(tot + 1):
                     for b in range(tot + 1 - a):
-                        acc = acc + np.abs(evaluate_deriv_basis(self.basis, pts, np.array([a, b, tot - a - b]), transform=transform))
+                        o = np.array([a, b, tot - a - b])
+                        if self.shells is not None:  # neighbourhood magnitude (robust against zeros by symmetry)
+                            val = self.neighbourhood(o)
+                            val = val if transform is None else np.abs(transform) @ val
+                        else:
+                            val = np.abs(evaluate_deriv_basis(self.basis, pts, o, transform=transform))
+                        acc = acc + val
                 cache[tot] = acc
         return cache[n]
 
